@@ -146,7 +146,7 @@ class Child:
         diskmod.install(disk)
         module = __import__(optable, fromlist=['OPS'])
         ops = module.OPS
-        ctx: dict = {'root': self.root, 'seed': seed}
+        ctx: dict = {'root': self.root, 'seed': seed, 'disk': disk}
         while True:
             msg = _recv(rfd)
             if msg is None:
